@@ -18,7 +18,7 @@ import (
 var e1Owners = map[string][]string{
 	"C01": {"delivery", "flush", "completeness"},
 	"C02": {"crosstalk", "foreign-error", "isolation", "handler-twice"},
-	"C04": {"cancel-hang", "cancel-error", "cancel-later-op", "cancel-conn", "cancel-peer"},
+	"C04": {"cancel-hang", "cancel-error", "cancel-later-op", "cancel-peer", "probe"},
 	"C05": {"fault-hang", "fault-closed", "fault-delivery", "panic", "fault-newstream"},
 	"C06": {"probe", "stuck-connection"},
 	"C07": {"wire", "concurrent-io", "wire-trailing"},
@@ -118,7 +118,7 @@ func (x *e1) afterRecv(sd *sideRec, rr *recvRec) {
 	if sd.client && r.Spec.Shape == ShUnary {
 		return
 	}
-	multi := r.Spec.Duplex && senders(peer) > 1
+	multi := r.Spec.Duplex
 	if !multi {
 		i := sd.recvPos
 		sd.recvPos++
@@ -468,8 +468,8 @@ func (x *e1) checkHangs(phase string) {
 			}
 		}
 		if len(cli) > 0 {
-			x.viol("cancel-hang", fmt.Sprintf("blocked-forever after cancel mode=%s calls=[%s] conn-closed=%v stalled=%v",
-				x.cancelMode(), describe(cli), connClosed(x.conn), stalledNow),
+			x.viol("cancel-hang", fmt.Sprintf("blocked-forever after cancel mode=%s manager=%s calls=[%s] conn-closed=%v stalled=%v",
+				x.cancelMode(), x.whereRole("cli.manageStreams"), describeSet(cli), connClosed(x.conn), stalledNow),
 				fmt.Sprintf("phase=%s rpc%d census=%v lib=%v", phase, r.Spec.Idx, cli, x.libCensus()))
 		}
 	}
@@ -498,12 +498,35 @@ func (x *e1) checkHangs(phase string) {
 					hc = append(hc, c)
 				}
 			}
-			if len(hc) > 0 && x.cep.Queued() == 0 && x.sep.Queued() == 0 {
+			reached := x.whereRole("srv.manageReader") == "net.read" || x.whereRole("srv.manageReader") == "exited"
+			if len(hc) > 0 && !reached {
+				x.res.probe("peer_cancel_stuck_behind_unread_message")
+			}
+			if len(hc) > 0 && x.cep.Queued() == 0 && x.sep.Queued() == 0 && reached {
 				x.viol("cancel-peer", fmt.Sprintf("handler of cancelled rpc still blocked after delivery mode=%s calls=[%s]", x.cancelMode(), describe(hc)),
 					fmt.Sprintf("phase=%s rpc%d lib=%v", phase, r.Spec.Idx, x.libCensus()))
 			}
 		}
 	}
+}
+
+// whereRole returns where the (first) task with the given role is parked.
+func (x *e1) whereRole(role string) string {
+	for _, c := range x.libCensus() {
+		if i := strings.IndexByte(c, '@'); i > 0 && c[:i] == role {
+			return c[i+1:]
+		}
+	}
+	return "exited"
+}
+
+// describeSet lists the distinct verb@where pairs of blocked calls.
+func describeSet(cs []blockedCall) string {
+	m := map[string]bool{}
+	for _, c := range cs {
+		m[apiVerb(c.API)+"@"+whereClass(c.Where)] = true
+	}
+	return strings.Join(sortedKeys(m), ",")
 }
 
 func (x *e1) ioFired() bool {
